@@ -244,7 +244,7 @@ def take_items(s, names):
 # --------------------------------------------------------------------------------------
 # contract splicing
 # --------------------------------------------------------------------------------------
-def splice(s, con, rw, fnmap_sink):
+def splice(s, con, rw, fnmap_sink, focus=None):
     """Apply @@fn / @@loop / @@hint / arms(T5) / drop / external_body to source text `s`."""
     edits = []   # (offset, delete_len, text)
     lost_hints = []
@@ -307,8 +307,16 @@ def splice(s, con, rw, fnmap_sink):
                 raise LostAnchor("fn %s: body does not end in a match (T5)" % fname)
             arms = rsrc.match_arms(s, tm[1], tm[2])
             pre_used = set()
-            for arm in arms:
+            for arm_index, arm in enumerate(arms):
                 pat = re.sub(r'\s+', ' ', arm['pat'])
+                if focus and fname in focus and arm_index not in focus[fname]:
+                    # arm splitting (DESIGN 8): this run checks other arms; prune this path
+                    edits.append((arm['body_start'], arm['body_end'] - arm['body_start'],
+                                  'return { assume(false); vstd::pervasive::unreached() }' + (',' if arm['is_block'] else '')))
+                    if (fname, pat) in con.armpre:
+                        pre_used.add(pat)
+                    rw.count('split-pruned-arm', 1)
+                    continue
                 pre = con.armpre.get((fname, pat))
                 if pre is not None:
                     pre_used.add(pat)
@@ -405,7 +413,12 @@ def splice(s, con, rw, fnmap_sink):
             edits.append((le, 0, '\n'.join(h['text']).rstrip() + '\n'))
         rw.count('T4-hint', 1)
 
-    # apply edits back to front; record an offset map for fn/arm ranges
+    # arm splitting: edits that fall inside a pruned arm disappear with it
+    pruned = [(e[0], e[0] + e[1]) for e in edits if e[2].startswith('return { assume(false); vstd::pervasive::unreached() }')]
+    if pruned:
+        edits = [e for e in edits if e[2].startswith('return { assume(false); vstd::pervasive::unreached() }')
+                 or not any(a <= e[0] < b or (e[0] == b and e[1] == 0 and e[2] == ',') for a, b in pruned)]
+    # apply edits in source order
     edits.sort(key=lambda e: (e[0], e[1]))
     out = []
     pos = 0
@@ -471,7 +484,7 @@ verus! {
 '''
 
 
-def extract(unit, repo, out_path, features=None):
+def extract(unit, repo, out_path, features=None, focus=None):
     features = features or ALL_FEATURES
     ud = unit_def(unit)
     con = Contracts(ud['contracts'])
@@ -495,7 +508,7 @@ def extract(unit, repo, out_path, features=None):
         s = rw.t7_format(s)
         s = unit_rewrites(ud, rel, s, rw)
         sink = {}
-        s, lh = splice(s, con, rw, sink)
+        s, lh = splice(s, con, rw, sink, focus)
         lost_hints += lh
         chunks.append('// ---- from %s %s\n' % (rel, '(items: %s)' % ', '.join(items) if items else '') + s)
         chunk_meta.append((rel, sink))
